@@ -1,6 +1,7 @@
 package main
 
 import (
+	"strconv"
 	"fmt"
 	"go/types"
 	"strings"
@@ -103,13 +104,32 @@ func contradicts(a string, H map[string]bool) bool {
 		if hop == "==" && op == "==" && hr != r {
 			return true
 		}
+		// both integer literals: the two constraints have no common integer solution
+		if k1, err1 := strconv.ParseInt(r, 10, 64); err1 == nil {
+			if k2, err2 := strconv.ParseInt(hr, 10, 64); err2 == nil && intDisjoint(op, k1, hop, k2) {
+				return true
+			}
+		}
 	}
 	return false
 }
 
 // canonAtom brings user-written atoms to the canonical form used by
 // condAtoms (bools as "X == true|false").
-func canonAtom(a string) string { return negAtom(negAtom(a)) }
+func canonAtom(a string) string {
+	a = negAtom(negAtom(a))
+	// integer comparisons with a literal use only {==, !=, >, <=}: x >= k is x > k-1, x < k is x <= k-1
+	l, op, r, ok := splitAtom(a)
+	if ok && (op == ">=" || op == "<") && r != "" && r != "-" && isLiteral(r) && r[0] != '"' && r != "nil" && r != "true" && r != "false" {
+		if k, err := strconv.ParseInt(r, 10, 64); err == nil {
+			if op == ">=" {
+				return l + " > " + strconv.FormatInt(k-1, 10)
+			}
+			return l + " <= " + strconv.FormatInt(k-1, 10)
+		}
+	}
+	return a
+}
 
 // edgeAtoms returns the atoms established by traversing pred->succ.
 func (fa *Facts) edgeAtoms(pred, succ *ssa.BasicBlock) []string {
@@ -375,4 +395,51 @@ func sameKind(a, b ssa.Instruction) bool {
 		return fa == fb
 	}
 	return false
+}
+
+// intRange: the set {x : x op k} as an interval [lo, hi] (with != handled by the caller).
+func intRange(op string, k int64) (lo, hi int64, ok bool) {
+	const inf = int64(1) << 62
+	switch op {
+	case "==":
+		return k, k, true
+	case "<":
+		return -inf, k - 1, true
+	case "<=":
+		return -inf, k, true
+	case ">":
+		return k + 1, inf, true
+	case ">=":
+		return k, inf, true
+	}
+	return 0, 0, false
+}
+
+// intDisjoint: no integer satisfies both (x op1 k1) and (x op2 k2).
+func intDisjoint(op1 string, k1 int64, op2 string, k2 int64) bool {
+	if op1 == "!=" && op2 == "!=" {
+		return false
+	}
+	if op1 == "!=" {
+		op1, k1, op2, k2 = op2, k2, op1, k1
+	}
+	lo1, hi1, ok := intRange(op1, k1)
+	if !ok {
+		return false
+	}
+	if op2 == "!=" {
+		return lo1 == hi1 && lo1 == k2
+	}
+	lo2, hi2, ok := intRange(op2, k2)
+	if !ok {
+		return false
+	}
+	lo, hi := lo1, hi1
+	if lo2 > lo {
+		lo = lo2
+	}
+	if hi2 < hi {
+		hi = hi2
+	}
+	return lo > hi
 }
